@@ -974,6 +974,52 @@ def _native_irregular(tier="quick", seed=0):
                 m3[ci2] = (m2[ci2][0], c2[:m.start(2)] + m.group(2).swapcase() + c2[m.end(2):])
                 bad = bad or opens(m3, "%s: no core props + extra member + %s case-flipped" % (dname, m.group(2).decode()), base)
             rec("C16.native[%s].pairs" % dname, bad)
+    # corpus decks (PowerPoint-authored: parts of kinds the library has no class for, reachable only through such parts): every member
+    # reachable through the relationship items -- computed here from the zip alone -- is a part after opening, and is written again
+    import glob
+    import posixpath as _pp
+
+    repo = os.environ.get("PPTX_REPO", "/repo")
+    bad = None
+
+    def reachable(z):
+        names = {n.lower(): n for n in z.namelist()}
+        seen, todo = set(), [("/", "_rels/.rels")]
+        while todo:
+            src, relsname = todo.pop()
+            key = names.get(relsname.lower())
+            if key is None:
+                continue
+            for m in re.finditer(rb'<Relationship [^>]*?/?>', z.read(key)):
+                r = m.group(0)
+                if b'TargetMode="External"' in r:
+                    continue
+                tgt = re.search(rb'Target="([^"]*)"', r).group(1).decode()
+                base_ = "/" if src == "/" else _pp.dirname(src)
+                pn = _pp.normpath(_pp.join(base_, tgt))
+                if pn.lower().lstrip("/") not in names or pn in seen:
+                    continue
+                seen.add(pn)
+                todo.append((pn, _pp.join(_pp.dirname(pn).lstrip("/"), "_rels", _pp.basename(pn) + ".rels")))
+        return seen
+
+    for f in sorted(glob.glob(os.path.join(repo, "features", "steps", "test_files", "*.pptx"))):
+        evals[0] += 1
+        try:
+            want = {p.lower() for p in reachable(zipfile.ZipFile(f))}
+            prs = Presentation(f)
+            got = {str(p.partname).lower() for p in prs.part.package.iter_parts()}
+            if got != want:
+                bad = bad or "%s: parts after opening differ from the members reachable in the file: missing %s, extra %s" % (os.path.basename(f), sorted(want - got)[:4], sorted(got - want)[:4])
+                continue
+            buf = io.BytesIO()
+            prs.save(buf)
+            again = {("/" + n).lower() for n in zipfile.ZipFile(io.BytesIO(buf.getvalue())).namelist() if not n.endswith(".rels") and n != "[Content_Types].xml"}
+            if again != want:
+                bad = bad or "%s: members written differ from the parts reachable in the original: missing %s, extra %s" % (os.path.basename(f), sorted(want - again)[:4], sorted(again - want)[:4])
+        except Exception as e:
+            bad = bad or "%s: %r" % (os.path.basename(f), e)
+    rec("C16.native.corpus_decks_open_with_every_reachable_part", bad)
     return {"contract": "C16.native_irregular", "prop": "C16", "status": "ok", "obligations": obls, "paths": 0, "assumed": [], "functions": {},
             "notes": [], "solver_s": 0.0, "wall_s": _t.time() - t0,
             "bounded": {"name": "C16.native_irregular", "bound": "two generated decks (1 slide; 3 slides + chart + notes + hyperlink); each irregularity at every applicable location, singly (pairs in the thorough tier)",
